@@ -337,7 +337,8 @@ func (l *lexer) scan() {
 						p = 7 // http://
 					}
 					lin = l.line
-					col = l.column + p
+					col = l.column
+					l.column += p
 					continue
 				}
 				fallthrough
